@@ -106,6 +106,8 @@ def run_tlc(module: str, cfg: str, *, workdir: str, env: dict | None = None, wor
         f.write(cfg)
     meta = os.path.join(workdir, "meta_" + name)
     cmd = ["java", "-XX:+UseParallelGC", "-Xss" + xss, "-Xmx" + xmx]
+    if workers == 1:
+        cmd += ["-XX:ParallelGCThreads=2", "-XX:CICompilerCount=2"]      # many single-worker JVMs run side by side
     if dfs:
         cmd.append("-Dtlc2.tool.queue.IStateQueue=StateDeque")
     cmd += ["-cp", JAR, "tlc2.TLC", "-workers", str(workers), "-metadir", meta,
